@@ -237,6 +237,16 @@ FIXED_INVALID = [
     {"kind": "invalid", "macro": "rbig", "fam": "rat", "par": [], "toks": [_t("digits", "1"), _t("digits", " 2")]},
     {"kind": "invalid", "macro": "rbig", "fam": "rat", "par": [], "toks": [_t("digits", "1"), _t("sign", "-"), _t("digits", "2")]},
     {"kind": "invalid", "macro": "static_rbig", "fam": "rat", "par": [], "toks": [_t("digits", "22"), _t("slash", "/")]},
+    # a minus sign on an unsigned macro, on every construction path (const expression, heap, static array)
+    {"kind": "invalid", "macro": "ubig", "fam": "int", "par": [], "toks": [_t("sign", "-"), _t("prefix", "0x"), _t("digits", "1_0000_0000")]},
+    {"kind": "invalid", "macro": "ubig", "fam": "int", "par": [], "toks": [_t("sign", "-"), _t("digits", "340282366920938463463374607431768211456")]},
+    {"kind": "invalid", "macro": "static_ubig", "fam": "int", "par": [], "toks": [_t("sign", "-"), _t("digits", "5")]},
+    {"kind": "invalid", "macro": "static_ubig", "fam": "int", "par": [], "toks": [_t("sign", "-"), _t("digits", "18446744073709551617")]},
+    {"kind": "invalid", "macro": "ubig", "fam": "int", "par": [], "toks": [_t("sign", "-"), _t("digits", "zzzzzzzzzz"), _t("base", "base"), _t("radix", "36")]},
+    # radix prefixes that disagree between numerator and denominator
+    {"kind": "invalid", "macro": "rbig", "fam": "rat", "par": [], "toks": [_t("prefix", "0x"), _t("digits", "10"), _t("slash", "/"), _t("prefix", "0b"), _t("digits", "11")]},
+    {"kind": "invalid", "macro": "rbig", "fam": "rat", "par": [], "toks": [_t("digits", "10"), _t("slash", "/"), _t("prefix", "0x"), _t("digits", "10")]},
+    {"kind": "invalid", "macro": "static_rbig", "fam": "rat", "par": [], "toks": [_t("digits", "17"), _t("slash", "/"), _t("prefix", "0o"), _t("digits", "21")]},
 ]
 
 
